@@ -176,6 +176,22 @@ func c12Scenarios(tier string, withClose bool) []*h.Scenario {
 				}})
 			}
 		}
+		// generated (thorough): every unordered pair of handler kinds racing with each other and with a pending tick
+		if tier == "thorough" {
+			popE := func(w *h.World) {
+				populate(w, "r")
+				mustStatus(w.PushBlob("r", f.Items["e"].Data, f.Items["e"].Dig), 201)
+			}
+			for i := range handlers {
+				for j := i; j < len(handlers); j++ {
+					a, b := handlers[i], handlers[j]
+					nm := strings.NewReplacer(" ", "-", "(", "", ")", "").Replace(strings.ToLower(a.Name + "-vs-" + b.Name))
+					sc := &h.Scenario{Conf: gcConf(3), Prefix: popE, PendingTick: true, Threads: [][]h.Step{{a}, {b}}, MaxSeconds: 120}
+					add("tick-vs-pair-"+nm, sc)
+					sc.Bound = 2
+				}
+			}
+		}
 		// the rate limit bookkeeping under concurrent requests from one address
 		add("ratelimit-same-address", &h.Scenario{Conf: &h.Conf{Name: store, Store: store, Mod: func(c *config.Config) { c.API.RateLimit = 2 }}, Threads: [][]h.Step{
 			{reqStep("GET /v2/ from A", func(w *h.World) h.Req { return h.Req{Method: "GET", Path: "/v2/", Remote: "10.0.0.1:1"} })},
@@ -224,7 +240,7 @@ func init() {
 	h.RegisterSched(&h.SchedCheck{
 		ID:    "C12",
 		Level: "model_checking",
-		Rule: "stateless depth-first search over all interleavings, up to the preemption bound, of 14 (quick) / 16 (thorough) scenarios per store executed on the real server: a request on an upload session (PATCH / PUT / DELETE / GET status) racing with the due age timer of the upload cache and with a POST that overflows RepoUploadMax (pruneCount goroutine); a push, a read and the first access of a new repository racing with a pending collection tick in the real gcTicker goroutine; a request blocked behind a collection whose context is then cancelled; " +
+		Rule: "stateless depth-first search over all interleavings, up to the preemption bound, of about 35 (quick) scenarios per store executed on the real server, plus in the thorough tier every unordered pair of the ten handler kinds racing with each other and with a pending tick (55 pairs per store, two preemptions, 120 s each): a request on an upload session (PATCH / PUT / DELETE / GET status) racing with the due age timer of the upload cache and with a POST that overflows RepoUploadMax (pruneCount goroutine); a push, a read and the first access of a new repository racing with a pending collection tick in the real gcTicker goroutine; a request blocked behind a collection whose context is then cancelled; every kind of handler (blob GET / DELETE, monolithic upload, mounts that hit, miss in the same and in another repository, manifest PUT / GET / DELETE, referrers) racing with a pending tick and with Close; the rate limit bookkeeping; " +
 			"expiry of the repository cache entry racing with requests to that and another repository; Close racing with a request, an upload and a tick; the first accesses of a legacy layout that must be regenerated. Oracle: every thread finishes (no enabled thread while one is unfinished = dead-lock, horizon = live-lock), nothing stays blocked at quiescence; non-trivial = distinct outcomes",
 		Assume:    []string{"scheduling points: lock, wait-group wait, channel receive / send / select, thread start and end; at most 3 request threads plus background threads", "happens-before prefix cache (sound under data-race freedom, see C13)"},
 		Scenarios: func(tier string) []*h.Scenario { return c12Scenarios(tier, true) },
